@@ -335,9 +335,20 @@ class C10(Scenario):
             recs2 = [dict(base, s="a", y=0.5, x=float("nan")), dict(base, s="b", y=1.5, x=0.5), dict(base, s="c", y=2.5, x=0.5), dict(base, s="c", y=2.5, x=3.5)]
             muts = [(dsc, m) for dsc, m in structural_mutants(outer) if _valid_spec(m) and dsc.split("@")[1].startswith("value/value")]
             steps = [{"op": "misdeliver", "what": dsc, "mutant": m, "form": f} for dsc, m in muts for f in FORMS]
-            return {"spec": outer, "records": [specmod.enc_record(r) for r in recs2], "acc_fill": [[0, 1.0], [1, 1.0]], "acc_fill2": None,
-                    "p_fill": [[2, 1.0], [3, 2.0]], "steps": steps, "reload_acc": True, "reload_p": k.chance(0.3), "tol": 0.0, "tolmode": "both",
-                    "vary_label_order": False}
+            flavour = k.pick(["first-bin-empty", "first-bin-empty", "live-after-good-merge", "learned-by-iadd"])
+            base_case = {"spec": outer, "records": [specmod.enc_record(r) for r in recs2 + [dict(base, s="a", y=0.5, x=0.5)]], "steps": steps,
+                         "p_fill": [[2, 1.0], [3, 2.0]], "tol": 0.0, "tolmode": "both", "vary_label_order": False, "flavour": flavour}
+            if flavour == "live-after-good-merge":
+                # both operands live; the accumulator is the sum of two compatible partials (an earlier, successful merge of
+                # templates that look exactly like the foreign ones down to the level where they differ)
+                base_case.update(acc_fill=[[0, 1.0], [1, 1.0]], acc_fill2=[[1, 1.0]], reload_acc=False, reload_p=False)
+            elif flavour == "learned-by-iadd":
+                # the reloaded accumulator knows nothing below its only, NaN-only bin until a compatible partial of the same
+                # category is merged into it in place; what it learnt then must count when the foreign partial arrives
+                base_case.update(acc_fill=[[0, 1.0]], acc_fill2=None, reload_acc=True, reload_p=k.chance(0.3), pre_iadd=[[4, 1.0]])
+            else:
+                base_case.update(acc_fill=[[0, 1.0], [1, 1.0]], acc_fill2=None, reload_acc=True, reload_p=k.chance(0.3))
+            return base_case
         if profile == "built":
             steps = []
             for _ in range(8):
@@ -461,6 +472,17 @@ class C10(Scenario):
                 if r.ok:
                     acc = r.value
                     w.bump("probe_operand_reloaded")
+            if case.get("pre_iadd"):
+                more = self._make(w, sp, case["pre_iadd"], None, si)
+
+                def learn():
+                    x = acc
+                    x += more
+                    return x
+
+                if more is None or not call(learn).ok:
+                    continue
+                w.bump("probe_accumulator_learnt_by_iadd")
             if case.get("reload_p"):
                 r = call(lambda: hg.Factory.fromJson(p.toJson()))
                 if r.ok:
